@@ -249,6 +249,13 @@ func walkSelectors(e grammar.Expression, f func(grammar.Selector)) {
 
 type NSlice []int
 type NMap map[string]int
+type NS1s []S1
+type NPtrs []*S1
+type NDocs []map[string]interface{}
+type NIfs []interface{}
+type NArr [2]S1
+type NMapS1 map[string]S1
+type NMapIf map[NStr]interface{}
 
 func optsCmd(opts []string) string { return "(" + strings.Join(opts, " ") + ")" }
 
@@ -352,6 +359,10 @@ func runC17(r *Run) {
 			m[float32(math.NaN())] = nil
 			return m
 		}()},
+		// named container types whose elements the expressions evaluate without error (the result must have the input's type)
+		{"NS1s", NS1s{{A: 1, B: "a"}, {A: 2, B: "b"}, {A: 1}}}, {"NS1s-empty", NS1s{}}, {"NS1s-nil", NS1s(nil)}, {"NPtrs", NPtrs{{A: 1}, {A: 2}}}, {"NDocs", NDocs{{"A": 1, "B": "a"}, {"A": 2, "B": "b"}}},
+		{"NIfs", NIfs{map[string]interface{}{"A": 1, "B": "a"}, S1{A: 2}}}, {"NArr", NArr{{A: 1}, {A: 2}}}, {"NMapS1", NMapS1{"x": {A: 1}, "y": {A: 2}}}, {"NMapS1-empty", NMapS1{}}, {"NMapS1-nil", NMapS1(nil)},
+		{"NMapIf", NMapIf{"x": S1{A: 1}, "y": map[string]interface{}{"A": 2, "B": "a"}}}, {"[0]S1", [0]S1{}}, {"[]S1-empty", []S1{}}, {"[]S1-nil", []S1(nil)},
 		{"[]S5", []S5{{V: 1, Sec: "s"}, {V: 2}}}, {"nil-*[]int", (*[]int)(nil)}, {"nil-*S1", (*S1)(nil)}, {"nil-*map", (*map[string]int)(nil)}, {"**[]int", func() **[]int { l := &[]int{1}; return &l }()}, {"[2]S1", [2]S1{{A: 1}, {A: 2}}}, {"[2]string", [2]string{"a", "b"}}, {"[]json-like", []interface{}{map[string]interface{}{"A": 1, "B": "a"}, map[string]interface{}{"A": "x"}, map[string]interface{}{}}},
 	}
 	exprs := []string{"", `"" == 1`, "A == 1", "A != 1", "B == a", "A == 1 or B == b", "not A == 1", "A is empty", "M.k == 1", "M is not empty", "zz == 1", "A == x", "V == 1", `"/A" == 1`, "any M as k { k == k }", "A matches `1`",
@@ -647,6 +658,8 @@ func runC18(r *Run) {
 		{"xs.09 == 9", map[string]interface{}{"xs": []interface{}{0, 1, 2, 3, 4, 5, 6, 7, 8, 9, 10, 11}}}, {"xs.0b11 == 3 and xs.1_0 == 10", map[string]interface{}{"xs": []interface{}{0, 1, 2, 3, 4, 5, 6, 7, 8, 9, 10, 11}}},
 		{"l.5 == 1", map[string]interface{}{"l": []int{1, 2}}}, {`"/l/2" == 1 or l.0 == 1`, map[string]interface{}{"l": []int{1, 2}}}, {"items.7.name == a", map[string]interface{}{"items": []interface{}{map[string]interface{}{"name": "a"}}}}, {"l.-1 is empty", map[string]interface{}{"l": []int{1}}},
 		{"any l as x { l.9 == x }", map[string]interface{}{"l": []int{1, 2}}}, {"a.b.c == 1", map[string]interface{}{"a": map[string]interface{}{"b": 5}}}, {"s.0 == a", map[string]interface{}{"s": "abc"}},
+		{"any B as x { x == a }", S1{B: "a"}}, {"all A as x { x == 1 }", S1{A: 1}}, {"any a as k { k == b }", map[string]interface{}{"a": 5}}, {"all X as x { x is empty }", S2{X: S1{A: 1}}},
+		{"any l as x { all x as y { y == 1 } }", map[string]interface{}{"l": []int{1, 2}}}, {"A == 1 or any B as x { x == a }", S1{A: 2, B: "a"}},
 		{"owner == nobody", map[string]interface{}{"owner": nil}}, {"any tags as t { t == a }", map[string]interface{}{"tags": []interface{}{"blue", nil}}}, {"I == a", S1{I: nil}}, {"P == 1", S1{}},
 	}
 	n := len(pairs)
@@ -754,6 +767,7 @@ func runC18(r *Run) {
 		r.Sample(map[string]interface{}{"expression": p.e, "datum": describe(p.d), "outcome_without_options": base})
 	}
 	c18AfterCreation(r)
+	c18TagNames(r)
 	c18TextBudgetRunTogether(r)
 	// the hook's replacement value is what the operators see
 	for _, t := range []struct {
@@ -856,6 +870,7 @@ func runC13(r *Run) {
 	c13InPlaceAndNested(r, n/2, hist)
 	c13RepeatStability(r, n/2)
 	c13PanickingHooksAndCrowds(r)
+	c13ExpressionText(r)
 	c17FirstError(r)
 	sameTypeDifferentShape(r, "history-dependent")
 	// filters
